@@ -74,13 +74,41 @@ func ruleMOD(c *Ctx) {
 			probs = append(probs, "symbol table argument is not a local variable")
 		} else {
 			obj := p.TypesInfo.Uses[stID]
+			// the table may pass through more than one local on its way
+			// (fresh := NewSymbolTable(); …; table := fresh.Fork(false)): all of
+			// them are "the module table"
+			tables := map[types.Object]bool{obj: true}
+			for changed := true; changed; {
+				changed = false
+				ast.Inspect(cm.Body, func(n ast.Node) bool {
+					x, ok := n.(*ast.AssignStmt)
+					if !ok {
+						return true
+					}
+					for i, l := range x.Lhs {
+						id, ok := l.(*ast.Ident)
+						if !ok || !tables[p.TypesInfo.ObjectOf(id)] || i >= len(x.Rhs) {
+							continue
+						}
+						if call, ok := x.Rhs[i].(*ast.CallExpr); ok && isMethodOf(Callee(p, call), p.Types, "SymbolTable", "Fork") {
+							if rid, ok := ast.Unparen(call.Fun.(*ast.SelectorExpr).X).(*ast.Ident); ok {
+								if ro := p.TypesInfo.ObjectOf(rid); ro != nil && !tables[ro] {
+									tables[ro] = true
+									changed = true
+								}
+							}
+						}
+					}
+					return true
+				})
+			}
 			nNew, nFork := 0, 0
 			ast.Inspect(cm.Body, func(n ast.Node) bool {
 				switch x := n.(type) {
 				case *ast.AssignStmt:
 					for i, l := range x.Lhs {
 						id, ok := l.(*ast.Ident)
-						if !ok || (p.TypesInfo.Defs[id] != obj && p.TypesInfo.Uses[id] != obj) || i >= len(x.Rhs) {
+						if !ok || !tables[p.TypesInfo.ObjectOf(id)] || i >= len(x.Rhs) {
 							continue
 						}
 						call, ok := x.Rhs[i].(*ast.CallExpr)
@@ -100,7 +128,7 @@ func ruleMOD(c *Ctx) {
 							if len(call.Args) == 1 {
 								arg = w.Src(call.Args[0])
 							}
-							if rid == nil || p.TypesInfo.Uses[rid] != obj || arg != "false" {
+							if rid == nil || !tables[p.TypesInfo.Uses[rid]] || arg != "false" {
 								probs = append(probs, "module table is not `<fresh table>.Fork(false)`: "+w.Src(call))
 							}
 							nFork++
@@ -111,7 +139,7 @@ func ruleMOD(c *Ctx) {
 				case *ast.CallExpr:
 					// method calls on the table other than DefineBuiltin / Fork / MaxSymbols
 					if se, ok := x.Fun.(*ast.SelectorExpr); ok {
-						if rid, ok := ast.Unparen(se.X).(*ast.Ident); ok && p.TypesInfo.Uses[rid] == obj {
+						if rid, ok := ast.Unparen(se.X).(*ast.Ident); ok && tables[p.TypesInfo.Uses[rid]] {
 							switch se.Sel.Name {
 							case "DefineBuiltin", "Fork", "MaxSymbols":
 							default:
@@ -252,6 +280,10 @@ func ruleMOD(c *Ctx) {
 				call, ok := r.Results[0].(*ast.CallExpr)
 				return ok && isMethodOf(Callee(p, call), p.Types, "Compiler", "checkCyclicImports") && strings.Contains(w.Src(call.Fun), "parent.") && len(call.Args) == 2 && isObj(p, call.Args[1], paramOfType(p, cc, "string"))
 			})
+			// … or the same walk written as a loop over every compiler of the chain
+			if !rec && walksParentChain(w, p, cc, false) != nil {
+				rec = true
+			}
 			if !rec {
 				probs = append(probs, "does not return parent.checkCyclicImports(node, modulePath) (the whole import stack must be walked)")
 			}
@@ -277,6 +309,23 @@ func ruleMOD(c *Ctx) {
 				call, ok := n.(*ast.CallExpr)
 				return ok && isMethodOf(Callee(p, call), p.Types, "Compiler", nm) && strings.Contains(w.Src(call.Fun), "parent.")
 			})
+			if !deleg {
+				// … or climbs to the outermost compiler in a loop and uses its cache
+				if root := walksParentChain(w, p, fd, true); root != nil {
+					deleg = containsNode(fd.Body, func(n ast.Node) bool {
+						ix, ok := n.(*ast.IndexExpr)
+						if !ok {
+							return false
+						}
+						f, base := FieldSel(p, ix.X)
+						if f == nil {
+							return false
+						}
+						id, ok := ast.Unparen(base).(*ast.Ident)
+						return ok && p.TypesInfo.ObjectOf(id) == root
+					})
+				}
+			}
 			c.check(deleg, "MOD.3/"+nm+"-at-root", fd, "delegates to the parent compiler (one cache per compilation)", nm+" does not reach the root compiler's cache")
 		}
 	}
@@ -986,4 +1035,69 @@ func searchTokens(s string) string {
 		out = append(out, f[i])
 	}
 	return strings.Join(out, " ")
+}
+
+// walksParentChain: the function holds a loop `for …; X != nil; X = X.parent`
+// (every compiler of the chain, toRoot == false) or `for X.parent != nil { X =
+// X.parent }` (climb to the outermost one, toRoot == true); returns X.
+func walksParentChain(w *World, p pkgT, fd *ast.FuncDecl, toRoot bool) types.Object {
+	var res types.Object
+	ast.Inspect(fd.Body, func(n ast.Node) bool {
+		fs, ok := n.(*ast.ForStmt)
+		if !ok || fs.Cond == nil {
+			return true
+		}
+		// the step X = X.parent, in the post statement or the body
+		var x types.Object
+		step := func(m ast.Node) bool {
+			as, ok := m.(*ast.AssignStmt)
+			if !ok || len(as.Lhs) != 1 || len(as.Rhs) != 1 || as.Tok != token.ASSIGN {
+				return false
+			}
+			id, ok := as.Lhs[0].(*ast.Ident)
+			if !ok {
+				return false
+			}
+			f, base := FieldSel(p, as.Rhs[0])
+			if f == nil || f.Name() != "parent" {
+				return false
+			}
+			bid, ok := ast.Unparen(base).(*ast.Ident)
+			if !ok || p.TypesInfo.ObjectOf(bid) != p.TypesInfo.ObjectOf(id) {
+				return false
+			}
+			x = p.TypesInfo.ObjectOf(id)
+			return true
+		}
+		found := false
+		if fs.Post != nil && step(fs.Post) {
+			found = true
+		}
+		if !found {
+			found = containsNode(fs.Body, step)
+		}
+		if !found {
+			return true
+		}
+		b, ok := ast.Unparen(fs.Cond).(*ast.BinaryExpr)
+		if !ok || b.Op != token.NEQ || !(isNilIdent(b.Y) || isNilIdent(b.X)) {
+			return true
+		}
+		other := b.X
+		if isNilIdent(b.X) {
+			other = b.Y
+		}
+		if toRoot {
+			f, base := FieldSel(p, other)
+			if f != nil && f.Name() == "parent" {
+				if bid, ok := ast.Unparen(base).(*ast.Ident); ok && p.TypesInfo.ObjectOf(bid) == x {
+					res = x
+				}
+			}
+		} else if id, ok := ast.Unparen(other).(*ast.Ident); ok && p.TypesInfo.ObjectOf(id) == x {
+			res = x
+		}
+		return true
+	})
+	return res
 }
